@@ -19,6 +19,7 @@ import (
 	"go.opentelemetry.io/collector/consumer/consumererror"
 	"go.opentelemetry.io/collector/exporter/exporterhelper"
 	"go.opentelemetry.io/collector/exporter/exportertest"
+	"go.opentelemetry.io/collector/pdata/pcommon"
 	"go.opentelemetry.io/collector/pdata/plog"
 	"go.opentelemetry.io/collector/pdata/pmetric"
 	"go.opentelemetry.io/collector/pdata/ptrace"
@@ -69,6 +70,11 @@ type XScript struct {
 	// same exporter is started on the same storage, drains what was left, is shut
 	// down, and the balance is required over both incarnations.
 	Restart bool
+	// Idle (asynchronous memory queue, nothing parked, no retry that goes on for
+	// ever): before Shutdown, wait (bounded) until everything that was accepted
+	// has been handed to the export function and every export call has returned,
+	// and require otelcol_exporter_queue_size to come back to 0.
+	Idle bool `json:",omitempty"`
 }
 
 // XPark parks export attempts across the Shutdown call.  Attempts are numbered
@@ -97,7 +103,13 @@ type XCtx struct {
 // drawn ("one-item": items sizer with max_size 1; "all-oversize": bytes sizer
 // with a max_size of a few bytes, below every single item;
 // "below-largest-item": bytes sizer with a max_size below the encoding of the
-// largest single item with its resource / scope / metric envelope).
+// largest single item with its resource / scope / metric envelope;
+// "first-record-does-not-fit": bytes sizer, one consumer, sequential offers,
+// max_size a little above the size of the first two adjacent non-empty requests'
+// first one and min_size = max_size or just below, and MergeSplit of the two
+// returns the first one unchanged as its first result; "near-pending-request":
+// drawn the same way but the first record of the next request fits, or the
+// pair is not the first two requests).
 type XBatch struct {
 	Min, Max, FlushMS int
 	Tiny              string `json:",omitempty"`
@@ -117,6 +129,129 @@ type XFate struct {
 const forever = 1 << 20
 
 func (s *XScript) sync() bool { return s.Queue == "none" || s.Wait }
+
+// retriesForever: some item fails "for ever" and the retry never gives up.
+func (s *XScript) retriesForever() bool {
+	if s.Retry == nil || s.Retry.MaxElapsedMS != 0 {
+		return false
+	}
+	for _, f := range s.Fates {
+		if f.Kind != "perm" && f.N >= forever {
+			return true
+		}
+	}
+	return false
+}
+
+// genNoFit places max_size / min_size of a bytes-sized batch just above the
+// size of one request (P) that is followed by a request (Q) with at least one
+// item: max_size = size(P) + d with 1 <= d <= size of Q's first item with its
+// envelope, min_size = max_size or a few bytes less (always above size(P)), so
+// that P waits as the pending batch and - unless d happens to be large enough
+// - not even the first record of Q fits into what is left of max_size.  The
+// label says what MergeSplit (public Request interface) answers for the pair.
+func genNoFit(t *rapid.T, s *XScript, b *XBatch) bool {
+	bs := xh.Settings(s.Signal).Sizers[exporterhelper.RequestSizerTypeBytes]
+	var firstIDs [][]int64
+	for _, p := range s.Payloads {
+		v, err := sig.Decode(s.Signal, p)
+		if err != nil {
+			return false
+		}
+		firstIDs = append(firstIDs, idsOf(v))
+	}
+	var cands []int
+	for i := 0; i+1 < len(s.Payloads); i++ {
+		if len(firstIDs[i]) > 0 && len(firstIDs[i+1]) > 0 {
+			cands = append(cands, i)
+		}
+	}
+	if len(cands) == 0 {
+		return false
+	}
+	i := cands[0]
+	if rapid.IntRange(0, 2).Draw(t, "nofit-later") == 0 {
+		i = rapid.SampledFrom(cands).Draw(t, "nofit-at")
+	}
+	sizeP := int(bs.Sizeof(xh.Request(s.Signal, s.Payloads[i])))
+	q, _ := sig.Decode(s.Signal, s.Payloads[i+1])
+	keep := firstIDs[i+1][0]
+	removeItems(q, func(id int64) bool { return id != keep })
+	first := int(bs.Sizeof(xh.Request(s.Signal, sig.Encode(q))))
+	if rapid.IntRange(0, 3).Draw(t, "nofit-tight") > 0 {
+		first = (first + 2) / 3 // well below the first record: the emptied containers of the other items are part of "first"
+	}
+	d := rapid.IntRange(1, max(1, first)).Draw(t, "nofit-room")
+	b.Max = sizeP + d
+	b.Min = b.Max - rapid.IntRange(0, min(d-1, 4)).Draw(t, "nofit-min")
+	b.Tiny = "near-pending-request"
+	if i == 0 {
+		res, err := xh.Request(s.Signal, s.Payloads[0]).MergeSplit(context.Background(), b.Max, exporterhelper.RequestSizerTypeBytes, xh.Request(s.Signal, s.Payloads[1]))
+		if err == nil && len(res) > 1 && int(bs.Sizeof(res[0])) == sizeP {
+			b.Tiny = "first-record-does-not-fit"
+		}
+	}
+	return true
+}
+
+// forEachItemAttrs calls fn with the attribute map of every item (log record,
+// span, data point) of a payload.
+func forEachItemAttrs(v any, fn func(pcommon.Map)) {
+	switch x := v.(type) {
+	case plog.Logs:
+		for i := 0; i < x.ResourceLogs().Len(); i++ {
+			rl := x.ResourceLogs().At(i)
+			for j := 0; j < rl.ScopeLogs().Len(); j++ {
+				sl := rl.ScopeLogs().At(j)
+				for k := 0; k < sl.LogRecords().Len(); k++ {
+					fn(sl.LogRecords().At(k).Attributes())
+				}
+			}
+		}
+	case ptrace.Traces:
+		for i := 0; i < x.ResourceSpans().Len(); i++ {
+			rl := x.ResourceSpans().At(i)
+			for j := 0; j < rl.ScopeSpans().Len(); j++ {
+				sl := rl.ScopeSpans().At(j)
+				for k := 0; k < sl.Spans().Len(); k++ {
+					fn(sl.Spans().At(k).Attributes())
+				}
+			}
+		}
+	case pmetric.Metrics:
+		for i := 0; i < x.ResourceMetrics().Len(); i++ {
+			rm := x.ResourceMetrics().At(i)
+			for j := 0; j < rm.ScopeMetrics().Len(); j++ {
+				sm := rm.ScopeMetrics().At(j)
+				for k := 0; k < sm.Metrics().Len(); k++ {
+					m := sm.Metrics().At(k)
+					switch m.Type() {
+					case pmetric.MetricTypeGauge:
+						for p := 0; p < m.Gauge().DataPoints().Len(); p++ {
+							fn(m.Gauge().DataPoints().At(p).Attributes())
+						}
+					case pmetric.MetricTypeSum:
+						for p := 0; p < m.Sum().DataPoints().Len(); p++ {
+							fn(m.Sum().DataPoints().At(p).Attributes())
+						}
+					case pmetric.MetricTypeHistogram:
+						for p := 0; p < m.Histogram().DataPoints().Len(); p++ {
+							fn(m.Histogram().DataPoints().At(p).Attributes())
+						}
+					case pmetric.MetricTypeExponentialHistogram:
+						for p := 0; p < m.ExponentialHistogram().DataPoints().Len(); p++ {
+							fn(m.ExponentialHistogram().DataPoints().At(p).Attributes())
+						}
+					case pmetric.MetricTypeSummary:
+						for p := 0; p < m.Summary().DataPoints().Len(); p++ {
+							fn(m.Summary().DataPoints().At(p).Attributes())
+						}
+					}
+				}
+			}
+		}
+	}
+}
 
 func genX(t *rapid.T) XScript {
 	s := XScript{Signal: rapid.SampledFrom(sig.Three).Draw(t, "signal"), Tracer: genTracer(t)}
@@ -181,6 +316,33 @@ func genX(t *rapid.T) XScript {
 	}
 	total := int(next - 1)
 
+	// bytes-sized batches on an asynchronous memory queue, two thirds of them: one
+	// consumer and sequential offers (the order in which the batcher sees the
+	// requests is the order of the calls), items padded to varied sizes (some
+	// large), and max_size / min_size placed just above one request's size so that
+	// the next request's first record does not fit into the pending batch
+	nofit := s.Batch != nil && s.Sizer == "bytes" && !s.Wait && np >= 2 && rapid.IntRange(0, 2).Draw(t, "nofit?") > 0
+	if nofit {
+		s.Consumers, s.Par = 1, 1
+		totalBytes = 0
+		for i, p := range s.Payloads {
+			v, err := sig.Decode(s.Signal, p)
+			if err != nil {
+				panic(err)
+			}
+			forEachItemAttrs(v, func(m pcommon.Map) {
+				switch rapid.IntRange(0, 5).Draw(t, "pad?") {
+				case 0:
+					m.PutStr("pad", strings.Repeat("p", rapid.IntRange(1, 40).Draw(t, "pad")))
+				case 1:
+					m.PutStr("pad", strings.Repeat("P", rapid.IntRange(100, 600).Draw(t, "bigpad")))
+				}
+			})
+			s.Payloads[i] = sig.Encode(v)
+			totalBytes += len(s.Payloads[i])
+		}
+	}
+
 	if s.Queue != "none" {
 		if rapid.IntRange(0, 3).Draw(t, "roomy") < 2 && !(s.Block && rapid.Bool().Draw(t, "tight")) {
 			s.QueueSize = 1 << 30
@@ -204,6 +366,9 @@ func genX(t *rapid.T) XScript {
 		unit := total // sum of all payloads in the batcher's unit
 		if bytesSized {
 			unit = totalBytes
+		}
+		if bytesSized && nofit && genNoFit(t, &s, b) {
+			continue
 		}
 		switch mode := rapid.IntRange(0, 9).Draw(t, "maxmode"); {
 		case mode < 2: // no upper bound
@@ -253,7 +418,11 @@ func genX(t *rapid.T) XScript {
 	// export calls parked across Shutdown: asynchronous queues only (a caller
 	// that waits for the result would have to call Consume concurrently with
 	// Shutdown); half of the persistent cases, a third of the memory ones
-	if !s.sync() && rapid.IntRange(0, 5).Draw(t, "park?") < map[string]int{"memory": 2, "persistent": 3}[s.Queue] {
+	parkShare := map[string]int{"memory": 2, "persistent": 3}[s.Queue]
+	if nofit {
+		parkShare = 1
+	}
+	if !s.sync() && rapid.IntRange(0, 5).Draw(t, "park?") < parkShare {
 		p := &XPark{N: rapid.IntRange(1, s.Consumers).Draw(t, "parkn")}
 		p.After = rapid.IntRange(0, max(0, min(np-p.N, 3))).Draw(t, "parkafter") // leave enough requests to park N attempts
 		p.ReleaseMS = rapid.SampledFrom([]int{0, 1, 1, 2, 4}).Draw(t, "releasems")
@@ -264,6 +433,16 @@ func genX(t *rapid.T) XScript {
 	}
 	if s.Queue == "persistent" {
 		s.Restart = rapid.Bool().Draw(t, "restart")
+	}
+	// the size gauge at an idle point before Shutdown: a quarter of the
+	// asynchronous memory cases in which everything accepted finishes on its own,
+	// most of the "does not fit" ones
+	if s.Queue == "memory" && !s.sync() && s.Park == nil && !s.retriesForever() {
+		share := 1
+		if nofit {
+			share = 3
+		}
+		s.Idle = rapid.IntRange(0, 3).Draw(t, "idle?") < share
 	}
 	// callers' contexts: with block_on_overflow every call of the hold phase
 	// gets one that ends (the backend is gated, so a producer blocked on a full
@@ -349,6 +528,40 @@ func (b *backend) counts() (attempts, parked int) {
 	b.mu.Lock()
 	defer b.mu.Unlock()
 	return len(b.ledger), b.parked
+}
+
+// settled: seen = every export call made so far has returned and every one of
+// ids has been handed to the export function; final = in addition no retry can
+// be pending (retry disabled, or the last attempt that carried an item
+// delivered it or failed permanently).
+func (b *backend) settled(ids []int64, retry bool) (seen, final bool) {
+	b.mu.Lock()
+	defer b.mu.Unlock()
+	last := map[int64]string{}
+	for _, a := range b.ledger {
+		if a.outcome == "" {
+			return false, false
+		}
+		rem := setOf(a.remaining)
+		for _, id := range a.ids {
+			o := a.outcome
+			if o == "partial" && !rem[id] {
+				o = "ok" // not among the items that still have to be delivered
+			}
+			last[id] = o
+		}
+	}
+	for _, id := range ids {
+		if _, ok := last[id]; !ok {
+			return false, false
+		}
+	}
+	for _, o := range last {
+		if retry && retryable(o) {
+			return true, false
+		}
+	}
+	return true, true
 }
 
 func partialError(v any, err error) error {
@@ -541,6 +754,9 @@ func runXInner(c *vt.C, s *XScript) (nontrivial bool, f *vt.Finding) {
 			}
 		}
 	}
+	if s.Idle && (s.Queue != "memory" || s.sync() || s.Park != nil || s.retriesForever()) {
+		return false, vt.Failf("harness/script", "the idle reading needs an asynchronous memory queue, nothing parked and no retry that goes on for ever")
+	}
 	if s.Restart && s.Queue != "persistent" {
 		return false, vt.Failf("harness/script", "a second incarnation needs a persistent queue")
 	}
@@ -647,6 +863,15 @@ func runXInner(c *vt.C, s *XScript) (nontrivial bool, f *vt.Finding) {
 	}
 	if s.SettleMS > 0 {
 		time.Sleep(time.Duration(s.SettleMS) * time.Millisecond)
+	}
+	// the size gauge at an idle point before Shutdown
+	idle := ""
+	if s.Idle {
+		var ff *vt.Finding
+		idle, ff = awaitIdleGauge(s, tel, set.ID, be, calls)
+		if ff != nil {
+			return true, ff
+		}
 	}
 	// parked attempts: wait (bounded; it only steers which history is observed)
 	// until the scripted number of attempts is parked or nothing moves any more,
@@ -980,6 +1205,29 @@ func runXInner(c *vt.C, s *XScript) (nontrivial bool, f *vt.Finding) {
 	if gaugeChecked != "" {
 		c.Class("gauges:" + gaugeChecked)
 	}
+	if idle != "" {
+		c.Class("idle-gauge:"+idle, "idle-gauge:read-before-shutdown")
+		if s.Batch != nil {
+			c.Class("idle-gauge:batch/sizer-" + s.Sizer)
+			if s.Batch.Tiny == "first-record-does-not-fit" {
+				c.Class("idle-gauge:batch/first-record-does-not-fit")
+			}
+		}
+	}
+	if b := s.Batch; b != nil && (b.Tiny == "first-record-does-not-fit" || b.Tiny == "near-pending-request") && len(calls) > 1 && calls[0].err == nil && calls[1].err == nil {
+		// observed: the first request (below min_size, so it waited as the pending
+		// batch) reached the export function without any item of the second one
+		alone := len(calls[0].ids) > 0
+		for _, id := range calls[0].ids {
+			ci, ok := chainOf[id]
+			if !ok || len(chains[ci].first) != len(calls[0].ids) {
+				alone = false
+			}
+		}
+		if alone {
+			c.Class("batch:" + b.Tiny + "/pending-request-exported-without-the-next-one")
+		}
+	}
 	if shutdownErr != nil {
 		c.Class("shutdown-returned-error")
 	}
@@ -1279,6 +1527,73 @@ func show(v any) string {
 		return fmt.Sprintf("{after %d n %d release %dms %v}", x.After, x.N, x.ReleaseMS, x.Outcomes)
 	}
 	return "?"
+}
+
+// awaitIdleGauge: the backend is open, nothing is parked, every failing item
+// stops failing (or the retry gives up), so every accepted request finishes on
+// its own - by a size flush, by the flush timer (3 or 10 ms), or at once.  The
+// queue then holds nothing and nothing is in flight: otelcol_exporter_queue_size
+// must come back to 0.  "Eventually": the gauge is polled; it is a violation
+// only when it still reads more than 0 at the end of a generous bound although,
+// for the last 3 seconds at least, every accepted item had been handed to the
+// export function, every export call had returned and no retry could be
+// pending.  Anything else that is not a zero reading is inconclusive.
+func awaitIdleGauge(s *XScript, tel *componenttest.Telemetry, id component.ID, be *backend, calls []*call) (string, *vt.Finding) {
+	var accepted []int64
+	var sizes []int64
+	for i, cl := range calls {
+		if cl.err != nil {
+			continue
+		}
+		accepted = append(accepted, cl.ids...)
+		switch s.Sizer {
+		case "requests":
+			sizes = append(sizes, 1)
+		case "items":
+			sizes = append(sizes, int64(len(cl.ids)))
+		case "bytes":
+			sizes = append(sizes, xh.Settings(s.Signal).Sizers[exporterhelper.RequestSizerTypeBytes].Sizeof(xh.Request(s.Signal, s.Payloads[i])))
+		}
+	}
+	gk := key("otelcol_exporter_queue_size", "exporter="+id.String(), "data_type="+s.Signal)
+	start := time.Now()
+	var finalSince time.Time
+	polls := 0
+	for pause := 100 * time.Microsecond; ; pause = min(2*pause, 5*time.Millisecond) {
+		seen, final := be.settled(accepted, s.Retry != nil)
+		now := time.Now()
+		if !final {
+			finalSince = time.Time{}
+		} else if finalSince.IsZero() {
+			finalSince = now
+		}
+		sn, err := collect(tel)
+		if err != nil {
+			return "", vt.Failf("harness/collect", "%v", err)
+		}
+		size, ok := sn.gauges[gk]
+		if !ok {
+			return "", vt.Failf("exporter/gauge-missing", "queue size gauge %s not reported while running (got %v)", gk, sn.gauges)
+		}
+		polls++
+		if size == 0 && seen {
+			if polls == 1 {
+				return "zero-at-once", nil
+			}
+			return "zero-after-waiting", nil
+		}
+		if size < 0 {
+			return "", vt.Failf("exporter/queue-size-negative", "queue_size reports %d (%s sizer, accepted request sizes %v)", size, s.Sizer, sizes)
+		}
+		switch {
+		case final && now.Sub(finalSince) >= 3*time.Second:
+			return "", vt.Failf("exporter/queue-size-not-zero-when-idle", "%s exporter, memory queue, sizer %s, consumers %d, batch %s, legacy %s, retry %s: %d requests were accepted (sizes %v), all their %d items have been handed to the export function, every export call returned more than 3 s ago with a final result (delivered or failed for good), nothing is queued or in flight - and otelcol_exporter_queue_size still reports %d instead of 0 (polled %d times over %v)",
+				s.Signal, s.Sizer, s.Consumers, show(s.Batch), show(s.Legacy), show(s.Retry), len(sizes), sizes, len(accepted), size, polls, now.Sub(start).Round(time.Millisecond))
+		case now.Sub(start) >= 8*time.Second:
+			return "inconclusive", nil
+		}
+		time.Sleep(pause)
+	}
 }
 
 // checkGauges compares otelcol_exporter_queue_size / _capacity with the model
